@@ -14,6 +14,8 @@
     trandom   <ss> <pl> <k> IND^k
     tmutation <ss> <pl> <zero?> <k> IND^k(pre) IND^k(post) <n>
     tcrossover <ss> <k> IND^k(lhs) IND^k(rhs) IND^k(post)
+    tincage   <ss> <k> IND^k(pre) IND^k(post)
+    tmembers  <ss> <k> IND^k(given) IND^k(post)          team(std::vector<i_mep>)
 
   answer: `ok`  |  `fail <failed checks…>`  |  `bad-op <why>`
   The checks are the decidable relations of Vita.C02.Model (`WF`, `…Step`) – the very
@@ -220,6 +222,20 @@ def runOp (tbl : List (Nat × SymSet)) (op : String) : PM String := do
     let f := chk "step" (decide (post.size = lhs.size) && (List.range k).all (fun j =>
       crossStepB (lhs.getD j teamMutation.default_ind) (rhs.getD j teamMutation.default_ind)
         (post.getD j teamMutation.default_ind))) f
+    finish (post.foldl (fun f x => chkWF "wf-post" ss x f) f)
+  | "tincage" =>
+    let k ← nextNat
+    let pre ← repN k (parseInd ss)
+    let post ← repN k (parseInd ss)
+    let f := pre.foldl (fun f x => chkWF "wf-pre" ss x f) []
+    let f := chk "step" (decide (TeamIncAgeStep pre.toList post.toList)) f
+    finish (post.foldl (fun f x => chkWF "wf-post" ss x f) f)
+  | "tmembers" =>
+    let k ← nextNat
+    let pre ← repN k (parseInd ss)
+    let post ← repN k (parseInd ss)
+    let f := pre.foldl (fun f x => chkWF "wf-pre" ss x f) []
+    let f := chk "step" (decide (TeamOfMembersStep pre.toList post.toList)) f
     finish (post.foldl (fun f x => chkWF "wf-post" ss x f) f)
   | _ => throw "unknown-op"
 
